@@ -49,6 +49,29 @@ def py_env():
     return env
 
 
+def python312():
+    """the CPython >= 3.12 that parses tm/num.py.  A pyenv shim prepends the *selected* version's bin
+    directory to PATH, so a child `python3` of a 3.11 process is 3.11 whatever PYENV_VERSION says:
+    resolve the interpreter by path."""
+    import shutil
+    roots = [os.environ.get("PYENV_ROOT"), os.path.expanduser("~/.pyenv"), "/root/.pyenv"]
+    for r in roots:
+        if r:
+            c = os.path.join(r, "versions", "3.12.1", "bin", "python3")
+            if os.path.exists(c):
+                return c
+    for name in ("python3.12", "python3.13"):
+        c = shutil.which(name)
+        if c:
+            return c
+    if sys.version_info >= (3, 12):
+        return sys.executable
+    for r in roots:
+        if r and os.path.exists(os.path.join(r, "shims", "python3")):
+            return os.path.join(r, "shims", "python3")
+    return "python3"
+
+
 def num_py_path():
     return os.environ.get("NUM_PY_PATH") or os.path.join(core.REPO, "tm", "num.py")
 
@@ -60,7 +83,7 @@ def key_string(k):
 # ------------------------------------------------------------------ part 1: tables
 
 def run_extractor():
-    p = subprocess.run(["python3", EXTRACT], capture_output=True, text=True, env=py_env(), timeout=300)
+    p = subprocess.run([python312(), EXTRACT], capture_output=True, text=True, env=py_env(), timeout=300)
     try:
         summary = json.loads(p.stdout.strip().split("\n")[-1]) if p.stdout.strip() else {}
     except json.JSONDecodeError:
@@ -71,7 +94,7 @@ def run_extractor():
 def probe(expr):
     """evaluate an expression on the real module (e.g. `make_exp(2, 4) % 30`)"""
     try:
-        p = subprocess.run(["python3", HARNESS, "--probe", expr], capture_output=True, text=True,
+        p = subprocess.run([python312(), HARNESS, "--probe", expr], capture_output=True, text=True,
                            env=py_env(), timeout=120)
         return p.stdout.strip().split("\n")[-1] if p.stdout.strip() else "?"
     except Exception as e:      # noqa: BLE001
@@ -193,7 +216,7 @@ def run_shards(tier, seed, tag="run"):
     jobs = []
     for k in range(shards):
         base = os.path.join(WORK, f"{tag}-{tier}-{seed}-{k}")
-        cmd = ["python3", HARNESS, "--seed", str(seed * 1000 + k), "--pairs", str(per),
+        cmd = [python312(), HARNESS, "--seed", str(seed * 1000 + k), "--pairs", str(per),
                "--out", base + ".cases", "--keys", base + ".json", "--trace", "all"]
         jobs.append((cmd, base))
     running, done = [], []
@@ -298,7 +321,7 @@ def check(rep, tier, seed, replay):
         with open(src, "w") as f:
             f.write("\n".join(cases) + "\n")
         base = os.path.join(WORK, "replay")
-        p = subprocess.run(["python3", HARNESS, "--redo", src, "--out", base + ".cases", "--keys", base + ".json"],
+        p = subprocess.run([python312(), HARNESS, "--redo", src, "--out", base + ".cases", "--keys", base + ".json"],
                            env=py_env(), capture_output=True, text=True, timeout=3600)
         if p.returncode != 0:
             raise RuntimeError("num_harness --redo failed: " + p.stderr[-2000:])
